@@ -7,10 +7,12 @@ REG13 = {
  'C13': dict(
     text='Lean 4 theorems over a model of sequence_alignment.py: the rolling-row DP equals the minimum cost over ALL '
          'explicit alignments (every pair of sequences, every cost triple, no size bound); returned alignments project to '
-         'both inputs and have that cost; stats sum to the distance; aggregation is addition. Model tied to the code by an '
+         'both inputs and have that cost; stats sum to the distance; aggregation is addition; the substring alignment '
+         '(levenshtein_alignment_substring: free prefix/suffix, suffix_beginning scan, back-trace) returns pre ++ core ++ suf with free '
+         'ends and core cost = the minimum over all substrings, for every cost triple. Model tied to the code by an '
          'exact correspondence check (exhaustive small scope + random) and an independent oracle on the real code.',
     note='Trusted: Lean kernel + propext/Classical.choice/Quot.sound; NumPy exact integer arithmetic; the correspondence '
-         'harness and compiled driver. Substring variants: see DESIGN §5-C13 for what is proved vs. checked by oracle.',
+         'harness and compiled driver. Substring distance and substring alignment are both proved (C13.substring_optimal, C13.substring_alignment_correct).',
     technique='Lean 4 proof (DP invariant = min over alignments) + differential correspondence model<->code',
     ref='§5-C13'),
 }
@@ -22,7 +24,8 @@ REG = {
          'Pb <= massB, Pnb <= massNB, score <= true CTC path sum (never over-counts); exact and complete when nothing is pruned; '
          'joining = grouping of textbook prefix-beam contributions and each frame keeps a top-k of the positive candidates; the '
          'beam never dies; unnormalised input rejected. Model tied to the real decoder by correspondence in exact rationals '
-         '(sets equal, scores within 1e-7, near-ties skipped) + brute-force path-sum oracle + textbook reference.',
+         '(sets equal, scores within 1e-7, near-ties skipped) + brute-force path-sum oracle + textbook reference that enumerates every legal '
+         'way of breaking (near-)ties at the cut (result must be one of them; never more than k hypotheses); decoder objects are reused.',
     note='Trusted: Lean kernel + 3 standard axioms; floating-point logaddexp/exp/log vs exact arithmetic (1e-7); np.argpartition '
          'returns some top-k set; translator reads the -10 threshold and 1e-5 tolerance.',
     technique='Lean 4 proof (CTC path-sum recursion + beam invariants over ordered semirings) + differential correspondence',
@@ -33,7 +36,8 @@ REG = {
          'LM and every selecting cut; first-arg-max laws; the best hypothesis is independent of hypothesis order when unique; '
          'posteriors are probabilities summing to 1 and the arg-max of the posteriors is the arg-max of the totals (confidence = '
          'posterior of the best hypothesis); LM scale 0 reproduces LM-free decoding exactly. Correspondence with the real decoder '
-         'driven by history-hash toy LMs; oracle recomputes LM scores along transcripts.',
+         'driven by history-hash toy LMs (half of the decoder objects have already decoded other lines from other start states); '
+         'oracle recomputes LM scores along transcripts.',
     note='Trusted: as C02; rank decisions with margin < 1e-6 skipped; real torch LM (LMWrapper) not modelled: any object with the '
          'advance/log_probs/eos interface is covered by the theorems.',
     technique='Lean 4 proof (invariant: plm/h depend on the prefix only; arg-max/posterior laws) + differential correspondence',
@@ -100,7 +104,9 @@ REG['C06'] = dict(
          'line never raises (as many word spans as words; the separator test is REGENERATED from the source); str.split() neither '
          'loses nor invents characters; a line is exported iff non-blank; get_hwvh is the bounding box; the print space is the '
          'bounding box of the blocks and the four margins cover the rest of the page; word confidences are medians of values in [0,1] '
-         '(C16). Correspondence: order conversion exhaustive over a 9-symbol class alphabet + random strings (exact); words/SP count '
+         '(C16); composition theorem alto_confidence_total: whenever the forced alignment of a line succeeds (C05) on a matrix of '
+         'per-frame distributions, the per-character confidences are defined on the aligned positions, one per character, each in '
+         '[0,1] (CTC and transformer dispatch). Correspondence: order conversion exhaustive over a 9-symbol class alphabet + random strings (exact); words/SP count '
          'and print-space/margin integers of the real to_altoxml_string vs the model; oracle on the real export and re-import.',
     note='Trusted / not decided: lxml; String/word GEOMETRY beyond "integer-valued" (get_crop_inputs, cf. C10); which lines align '
          '(C05) is an input of the word model. Observation: word confidences of lines with repeated blanks are taken from a shifted '
@@ -114,7 +120,9 @@ REG['C10'] = dict(
          'evaluation point of the cubic interpolant is admissible (flag REGENERATED from the source; kernel-checked witness that it '
          'was not before the fix), crop always returns the configured height and is blank iff the inner computation raised. NOT '
          'decided by proof: uniform advance along the fitted curve, perpendicularity, shift equivariance in floating point '
-         '(polyfit, splines, atan2, arc length, cv2 fixed-point) - judged only by a geometric oracle on the real output.',
+         '(polyfit, splines, atan2, arc length, cv2 fixed-point) - judged only by a geometric oracle on the real output. Degenerate lines '
+         '(vertical, point, one pixel, zero heights given as Python numbers, float/int ndarrays or NumPy scalars; directly and through the '
+         'real LineCropper stage) must give an image of the configured height and never an error.',
     note='Trusted: cv2.remap is bilinear sampling with constant border (model vs cv2 within one grey level at 1/32-px coordinates); '
          'SciPy interp1d, NumPy polyfit/linspace; float rounding.',
     technique='Lean 4 proof (floor/convexity arguments over Q) over a model with a generated flag + geometric oracle (partial)',
@@ -159,9 +167,10 @@ REG['C08'] = dict(
          'instance is in, hence of ANY processing history (subsets, orders, repetitions); a run is page-wise; processing a page twice '
          'gives identical output; any partition of the pages among fresh workers gives the sequential result. Whether process_page '
          'resets last_line is REGENERATED from the source each run. Correspondence: the real PageDecoder driven with a symbolic '
-         'decoder/LM whose outputs encode their inputs vs the Lean model (exact); oracle with the real prefix decoder + toy LM; '
+         'decoder/LM whose outputs encode their inputs vs the Lean model (exact); oracle with the real prefix decoder + toy LM and with the REAL '
+         'LMWrapper/HiddenState around tiny seeded torch LMs (plain and tuple state; beam 1/2/4): page after a history = page alone = page twice; '
          'parse_folder --process-count 1 vs 2 on the model-free stage.',
-    note='Trusted: multiprocessing.Pool.starmap (each task once, results in order); hidden state inside a real torch LM; the decoder '
+    note='Trusted: multiprocessing.Pool.starmap (each task once, results in order); aliasing inside torch tensors of a real LM is only exercised (oracle), not modelled; the decoder '
          'call is stateless (proved for the model decoder in C02/C03, exercised on the real one).',
     technique='Lean 4 proof (state-independence of processPage) over a model with a generated flag + differential correspondence',
     ref='§5-C08')
